@@ -7,161 +7,184 @@ namespace MakoModel.PyExpr
 
 macro "gunfold" h:ident : tactic =>
   `(tactic| simp only [Expr.all, allOpt, allList, allOptList, allKeywords, allDict, allComps, allArgs, totalLocal,
-      Bool.and_eq_true, List.all_cons, List.all_nil, Keyword.named, DictItem.keyed, Option.isSome_iff_exists,
+      Bool.and_eq_true, List.all_cons, List.all_nil, Option.isSome_iff_exists,
       Bool.true_and, Bool.and_true] at $h:ident)
 
 macro "tclose" : tactic =>
   `(tactic| (simp [print, printOpt, printList, printOptList, printDict, printDictKeys, printDictValues, printCmp,
-      printKeywords, printKeywordsGeneric, printComps, printDefaults, printSig, printArgsGeneric, *] <;>
+      printKeywords, printKeywordsGeneric, printComps, printDefaults, printSig, printArgsGeneric, printOps,
+      printKwDefaults, *] <;>
       (repeat' split) <;> simp [*]))
 
 set_option maxHeartbeats 1000000 in
 mutual
-theorem total_print : ∀ (e : Expr), e.all totalLocal = true → ∃ t, print e = some t
+theorem total_print (hs : SymbolsTotal) : ∀ (e : Expr), e.all totalLocal = true → ∃ t, print e = some t
   | .name id _, _ => by tclose
   | .const _ r, _ => by tclose
   | .attribute v a, h => by
-      gunfold h; obtain ⟨t1, e1⟩ := total_print v h; tclose
+      gunfold h; obtain ⟨t1, e1⟩ := total_print hs v h; tclose
   | .subscript v s, h => by
-      gunfold h; obtain ⟨t1, e1⟩ := total_print v h.1; obtain ⟨t2, e2⟩ := total_print s h.2; tclose
+      gunfold h; obtain ⟨t1, e1⟩ := total_print hs v h.1; obtain ⟨t2, e2⟩ := total_print hs s h.2; tclose
   | .slice lo hi none, h => by
       gunfold h
-      obtain ⟨t1, e1⟩ := total_printOpt lo h.1; obtain ⟨t2, e2⟩ := total_printOpt hi h.2
+      obtain ⟨t1, e1⟩ := total_printOpt hs lo h.1; obtain ⟨t2, e2⟩ := total_printOpt hs hi h.2
       tclose
   | .slice lo hi (some s), h => by
       gunfold h
-      obtain ⟨t1, e1⟩ := total_printOpt lo h.1.1; obtain ⟨t2, e2⟩ := total_printOpt hi h.1.2
-      obtain ⟨t3, e3⟩ := total_print s h.2
+      obtain ⟨t1, e1⟩ := total_printOpt hs lo h.1.1; obtain ⟨t2, e2⟩ := total_printOpt hs hi h.1.2
+      obtain ⟨t3, e3⟩ := total_print hs s h.2
       tclose
   | .call f args kws, h => by
       gunfold h
-      obtain ⟨t1, e1⟩ := total_print f h.1.1.2; obtain ⟨t2, e2⟩ := total_printList args h.1.2
-      obtain ⟨t3, e3⟩ := total_printKeywords kws h.1.1.1 h.2
-      obtain ⟨t4, e4⟩ := total_printKeywordsGeneric kws h.2
+      obtain ⟨t1, e1⟩ := total_print hs f h.1.1; obtain ⟨t2, e2⟩ := total_printList hs args h.1.2
+      obtain ⟨t3, e3⟩ := total_printKeywords hs kws h.2
+      obtain ⟨t4, e4⟩ := total_printKeywordsGeneric hs kws h.2
       tclose
   | .unaryOp op e, h => by
-      gunfold h; obtain ⟨s, es⟩ := h.1; obtain ⟨t1, e1⟩ := total_print e h.2; tclose
+      gunfold h; obtain ⟨s, es⟩ := hs.unary op; obtain ⟨t1, e1⟩ := total_print hs e h; tclose
   | .binOp l op r, h => by
-      gunfold h; obtain ⟨s, es⟩ := h.1.1
-      obtain ⟨t1, e1⟩ := total_print l h.1.2; obtain ⟨t2, e2⟩ := total_print r h.2; tclose
+      gunfold h; obtain ⟨s, es⟩ := hs.bin op
+      obtain ⟨t1, e1⟩ := total_print hs l h.1; obtain ⟨t2, e2⟩ := total_print hs r h.2; tclose
   | .boolOp op vs, h => by
-      gunfold h; obtain ⟨s, es⟩ := h.1
-      obtain ⟨t1, e1⟩ := total_printList vs h.2; tclose
+      gunfold h; obtain ⟨s, es⟩ := hs.bool op
+      obtain ⟨t1, e1⟩ := total_printList hs vs h; obtain ⟨t2, e2⟩ := total_printOps hs vs h; tclose
   | .compare l ops cs, h => by
       gunfold h
-      obtain ⟨t1, e1⟩ := total_print l h.1.2; obtain ⟨t2, e2⟩ := total_printList cs h.2
-      obtain ⟨t3, e3⟩ := total_printCmp ops cs h.1.1 h.2
+      obtain ⟨t1, e1⟩ := total_print hs l h.1; obtain ⟨t2, e2⟩ := total_printList hs cs h.2
+      obtain ⟨t3, e3⟩ := total_printCmp hs ops cs h.2
       tclose
   | .ifExp c b o, h => by
       gunfold h
-      obtain ⟨t1, e1⟩ := total_print c h.1.1; obtain ⟨t2, e2⟩ := total_print b h.1.2
-      obtain ⟨t3, e3⟩ := total_print o h.2; tclose
+      obtain ⟨t1, e1⟩ := total_print hs c h.1.1; obtain ⟨t2, e2⟩ := total_print hs b h.1.2
+      obtain ⟨t3, e3⟩ := total_print hs o h.2; tclose
   | .lambda a b, h => by
       gunfold h
-      obtain ⟨t1, e1⟩ := total_printSig a h.1; obtain ⟨t2, e2⟩ := total_printArgsGeneric a h.1
-      obtain ⟨t3, e3⟩ := total_print b h.2; tclose
-  | .tuple es, h => by gunfold h; obtain ⟨t1, e1⟩ := total_printList es h; tclose
-  | .list es, h => by gunfold h; obtain ⟨t1, e1⟩ := total_printList es h; tclose
-  | .set es, h => by gunfold h; obtain ⟨t1, e1⟩ := total_printList es h; tclose
+      obtain ⟨t1, e1⟩ := total_printSig hs a h.1; obtain ⟨t2, e2⟩ := total_printArgsGeneric hs a h.1
+      obtain ⟨t3, e3⟩ := total_print hs b h.2; tclose
+  | .tuple es, h => by gunfold h; obtain ⟨t1, e1⟩ := total_printList hs es h; tclose
+  | .list es, h => by gunfold h; obtain ⟨t1, e1⟩ := total_printList hs es h; tclose
+  | .set es, h => by gunfold h; obtain ⟨t1, e1⟩ := total_printList hs es h; tclose
   | .dict items, h => by
       gunfold h
-      obtain ⟨t1, e1⟩ := total_printDict items h.1 h.2
-      obtain ⟨t2, e2⟩ := total_printDictKeys items h.2; obtain ⟨t3, e3⟩ := total_printDictValues items h.2
+      obtain ⟨t1, e1⟩ := total_printDict hs items h
+      obtain ⟨t2, e2⟩ := total_printDictKeys hs items h; obtain ⟨t3, e3⟩ := total_printDictValues hs items h
       tclose
   | .listComp e gs, h => by
-      gunfold h; obtain ⟨t1, e1⟩ := total_print e h.1; obtain ⟨t2, e2⟩ := total_printComps gs h.2; tclose
+      gunfold h; obtain ⟨t1, e1⟩ := total_print hs e h.1; obtain ⟨t2, e2⟩ := total_printComps hs gs h.2; tclose
   | .setComp e gs, h => by
-      gunfold h; obtain ⟨t1, e1⟩ := total_print e h.1; obtain ⟨t2, e2⟩ := total_printComps gs h.2; tclose
+      gunfold h; obtain ⟨t1, e1⟩ := total_print hs e h.1; obtain ⟨t2, e2⟩ := total_printComps hs gs h.2; tclose
   | .generatorExp e gs, h => by
-      gunfold h; obtain ⟨t1, e1⟩ := total_print e h.1; obtain ⟨t2, e2⟩ := total_printComps gs h.2; tclose
+      gunfold h; obtain ⟨t1, e1⟩ := total_print hs e h.1; obtain ⟨t2, e2⟩ := total_printComps hs gs h.2; tclose
   | .dictComp k v gs, h => by
       gunfold h
-      obtain ⟨t1, e1⟩ := total_print k h.1.1; obtain ⟨t2, e2⟩ := total_print v h.1.2
-      obtain ⟨t3, e3⟩ := total_printComps gs h.2; tclose
-  | .joinedStr src vs, h => by gunfold h; obtain ⟨t1, e1⟩ := total_printList vs h; tclose
+      obtain ⟨t1, e1⟩ := total_print hs k h.1.1; obtain ⟨t2, e2⟩ := total_print hs v h.1.2
+      obtain ⟨t3, e3⟩ := total_printComps hs gs h.2; tclose
+  | .joinedStr src vs, h => by gunfold h; obtain ⟨t1, e1⟩ := total_printList hs vs h; tclose
   | .formattedValue v _ spec, h => by
-      gunfold h; obtain ⟨t1, e1⟩ := total_print v h.1; obtain ⟨t2, e2⟩ := total_printOpt spec h.2; tclose
-  | .starred v, h => by gunfold h; obtain ⟨t1, e1⟩ := total_print v h; tclose
+      gunfold h; obtain ⟨t1, e1⟩ := total_print hs v h.1; obtain ⟨t2, e2⟩ := total_printOpt hs spec h.2; tclose
+  | .starred v, h => by gunfold h; obtain ⟨t1, e1⟩ := total_print hs v h; tclose
   | .namedExpr a v, h => by
-      gunfold h; obtain ⟨t1, e1⟩ := total_print a h.1; obtain ⟨t2, e2⟩ := total_print v h.2; tclose
-  | .await v, h => by gunfold h; obtain ⟨t1, e1⟩ := total_print v h; tclose
+      gunfold h; obtain ⟨t1, e1⟩ := total_print hs a h.1; obtain ⟨t2, e2⟩ := total_print hs v h.2; tclose
+  | .await v, h => by gunfold h; obtain ⟨t1, e1⟩ := total_print hs v h; tclose
   | .yield none, h => by gunfold h; simp at h
-  | .yield (some e), h => by gunfold h; obtain ⟨t1, e1⟩ := total_print e h.2; tclose
-  | .yieldFrom v, h => by gunfold h; obtain ⟨t1, e1⟩ := total_print v h; tclose
-theorem total_printOpt : ∀ (o : Option Expr), allOpt totalLocal o = true → ∃ t, printOpt o = some t
+  | .yield (some e), h => by gunfold h; obtain ⟨t1, e1⟩ := total_print hs e h.2; tclose
+  | .yieldFrom v, h => by gunfold h; obtain ⟨t1, e1⟩ := total_print hs v h; tclose
+theorem total_printOpt (hs : SymbolsTotal) : ∀ (o : Option Expr), allOpt totalLocal o = true → ∃ t, printOpt o = some t
   | none, _ => by tclose
-  | some e, h => by gunfold h; obtain ⟨t1, e1⟩ := total_print e h; tclose
-theorem total_printList : ∀ (es : List Expr), allList totalLocal es = true → ∃ ts, printList es = some ts
+  | some e, h => by gunfold h; obtain ⟨t1, e1⟩ := total_print hs e h; tclose
+theorem total_printList (hs : SymbolsTotal) : ∀ (es : List Expr), allList totalLocal es = true → ∃ ts, printList es = some ts
   | [], _ => by tclose
   | e :: es, h => by
-      gunfold h; obtain ⟨t1, e1⟩ := total_print e h.1; obtain ⟨t2, e2⟩ := total_printList es h.2; tclose
-theorem total_printOptList : ∀ (es : List (Option Expr)), allOptList totalLocal es = true →
+      gunfold h; obtain ⟨t1, e1⟩ := total_print hs e h.1; obtain ⟨t2, e2⟩ := total_printList hs es h.2; tclose
+theorem total_printOptList (hs : SymbolsTotal) : ∀ (es : List (Option Expr)), allOptList totalLocal es = true →
     ∃ t, printOptList es = some t
   | [], _ => by tclose
-  | none :: es, h => by gunfold h; obtain ⟨t2, e2⟩ := total_printOptList es h; tclose
+  | none :: es, h => by gunfold h; obtain ⟨t2, e2⟩ := total_printOptList hs es h; tclose
   | some e :: es, h => by
-      gunfold h; obtain ⟨t1, e1⟩ := total_print e h.1; obtain ⟨t2, e2⟩ := total_printOptList es h.2; tclose
-theorem total_printDict : ∀ (items : List DictItem), items.all DictItem.keyed = true →
+      gunfold h; obtain ⟨t1, e1⟩ := total_print hs e h.1; obtain ⟨t2, e2⟩ := total_printOptList hs es h.2; tclose
+theorem total_printDict (hs : SymbolsTotal) : ∀ (items : List DictItem),
     allDict totalLocal items = true → ∃ ts, printDict items = some ts
-  | [], _, _ => by tclose
-  | .mk none v :: r, hk, _ => by gunfold hk; simp at hk
-  | .mk (some k) v :: r, hk, h => by
-      gunfold hk; gunfold h
-      obtain ⟨t1, e1⟩ := total_print k h.1.1; obtain ⟨t2, e2⟩ := total_print v h.1.2
-      obtain ⟨t3, e3⟩ := total_printDict r hk.2 h.2; tclose
-theorem total_printDictKeys : ∀ (items : List DictItem), allDict totalLocal items = true →
+  | [], _ => by tclose
+  | .mk none v :: r, h => by
+      gunfold h
+      obtain ⟨t2, e2⟩ := total_print hs v h.1
+      obtain ⟨t3, e3⟩ := total_printDict hs r h.2; tclose
+  | .mk (some k) v :: r, h => by
+      gunfold h
+      obtain ⟨t1, e1⟩ := total_print hs k h.1.1; obtain ⟨t2, e2⟩ := total_print hs v h.1.2
+      obtain ⟨t3, e3⟩ := total_printDict hs r h.2; tclose
+theorem total_printDictKeys (hs : SymbolsTotal) : ∀ (items : List DictItem), allDict totalLocal items = true →
     ∃ t, printDictKeys items = some t
   | [], _ => by tclose
-  | .mk none _ :: r, h => by gunfold h; obtain ⟨t3, e3⟩ := total_printDictKeys r h.2; tclose
+  | .mk none _ :: r, h => by gunfold h; obtain ⟨t3, e3⟩ := total_printDictKeys hs r h.2; tclose
   | .mk (some k) _ :: r, h => by
-      gunfold h; obtain ⟨t1, e1⟩ := total_print k h.1.1; obtain ⟨t3, e3⟩ := total_printDictKeys r h.2; tclose
-theorem total_printDictValues : ∀ (items : List DictItem), allDict totalLocal items = true →
+      gunfold h; obtain ⟨t1, e1⟩ := total_print hs k h.1.1; obtain ⟨t3, e3⟩ := total_printDictKeys hs r h.2; tclose
+theorem total_printDictValues (hs : SymbolsTotal) : ∀ (items : List DictItem), allDict totalLocal items = true →
     ∃ t, printDictValues items = some t
   | [], _ => by tclose
   | .mk none v :: r, h => by
-      gunfold h; obtain ⟨t1, e1⟩ := total_print v h.1; obtain ⟨t3, e3⟩ := total_printDictValues r h.2; tclose
+      gunfold h; obtain ⟨t1, e1⟩ := total_print hs v h.1; obtain ⟨t3, e3⟩ := total_printDictValues hs r h.2; tclose
   | .mk (some _) v :: r, h => by
-      gunfold h; obtain ⟨t1, e1⟩ := total_print v h.1.2; obtain ⟨t3, e3⟩ := total_printDictValues r h.2; tclose
-theorem total_printCmp : ∀ (ops : List CmpOp) (cs : List Expr), (ops.all fun o => o.sym.isSome) = true →
+      gunfold h; obtain ⟨t1, e1⟩ := total_print hs v h.1.2; obtain ⟨t3, e3⟩ := total_printDictValues hs r h.2; tclose
+theorem total_printCmp (hs : SymbolsTotal) : ∀ (ops : List CmpOp) (cs : List Expr),
     allList totalLocal cs = true → ∃ t, printCmp ops cs = some t
-  | _, [], _, _ => by tclose
-  | [], _ :: _, _, _ => by tclose
-  | op :: ops, c :: cs, ho, h => by
-      gunfold ho; gunfold h; obtain ⟨s, es⟩ := ho.1
-      obtain ⟨t1, e1⟩ := total_print c h.1; obtain ⟨t2, e2⟩ := total_printCmp ops cs ho.2 h.2; tclose
-theorem total_printKeywords : ∀ (ks : List Keyword), ks.all Keyword.named = true →
+  | _, [], _ => by tclose
+  | [], _ :: _, _ => by tclose
+  | op :: ops, c :: cs, h => by
+      gunfold h; obtain ⟨s, es⟩ := hs.cmp op
+      obtain ⟨t1, e1⟩ := total_print hs c h.1; obtain ⟨t2, e2⟩ := total_printCmp hs ops cs h.2; tclose
+theorem total_printKeywords (hs : SymbolsTotal) : ∀ (ks : List Keyword),
     allKeywords totalLocal ks = true → ∃ ts, printKeywords ks = some ts
-  | [], _, _ => by tclose
-  | .mk arg v :: ks, hk, h => by
-      gunfold hk; gunfold h; obtain ⟨a, ea⟩ := hk.1
-      obtain ⟨t1, e1⟩ := total_print v h.1; obtain ⟨t2, e2⟩ := total_printKeywords ks hk.2 h.2; tclose
-theorem total_printKeywordsGeneric : ∀ (ks : List Keyword), allKeywords totalLocal ks = true →
+  | [], _ => by tclose
+  | .mk arg v :: ks, h => by
+      gunfold h
+      obtain ⟨t1, e1⟩ := total_print hs v h.1; obtain ⟨t2, e2⟩ := total_printKeywords hs ks h.2; tclose
+theorem total_printOps (hs : SymbolsTotal) : ∀ (es : List Expr), allList totalLocal es = true →
+    ∃ ts, printOps es = some ts
+  | [], _ => by tclose
+  | e :: es, h => by
+      gunfold h; obtain ⟨t1, e1⟩ := total_print hs e h.1; obtain ⟨t2, e2⟩ := total_printOps hs es h.2; tclose
+theorem total_printKwDefaults (hs : SymbolsTotal) : ∀ (as : List Str) (ds : List (Option Expr)),
+    allOptList totalLocal ds = true → ∃ ts, printKwDefaults as ds = some ts
+  | _, [], _ => by tclose
+  | [], _ :: _, _ => by tclose
+  | a :: as, none :: ds, h => by
+      gunfold h; obtain ⟨t2, e2⟩ := total_printKwDefaults hs as ds h; tclose
+  | a :: as, some d :: ds, h => by
+      gunfold h
+      obtain ⟨t1, e1⟩ := total_print hs d h.1; obtain ⟨t2, e2⟩ := total_printKwDefaults hs as ds h.2; tclose
+theorem total_printKeywordsGeneric (hs : SymbolsTotal) : ∀ (ks : List Keyword), allKeywords totalLocal ks = true →
     ∃ t, printKeywordsGeneric ks = some t
   | [], _ => by tclose
   | .mk _ v :: ks, h => by
       gunfold h
-      obtain ⟨t1, e1⟩ := total_print v h.1; obtain ⟨t2, e2⟩ := total_printKeywordsGeneric ks h.2; tclose
-theorem total_printComps : ∀ (gs : List Comp), allComps totalLocal gs = true → ∃ t, printComps gs = some t
+      obtain ⟨t1, e1⟩ := total_print hs v h.1; obtain ⟨t2, e2⟩ := total_printKeywordsGeneric hs ks h.2; tclose
+theorem total_printComps (hs : SymbolsTotal) : ∀ (gs : List Comp), allComps totalLocal gs = true → ∃ t, printComps gs = some t
   | [], _ => by tclose
   | .mk target iter ifs _ :: gs, h => by
       gunfold h
-      obtain ⟨t1, e1⟩ := total_print target h.1.1.1; obtain ⟨t2, e2⟩ := total_print iter h.1.1.2
-      obtain ⟨t3, e3⟩ := total_printList ifs h.1.2; obtain ⟨t4, e4⟩ := total_printComps gs h.2; tclose
-theorem total_printDefaults : ∀ (as : List Str) (ds : List Expr), allList totalLocal ds = true →
+      obtain ⟨t1, e1⟩ := total_print hs target h.1.1.1; obtain ⟨t2, e2⟩ := total_print hs iter h.1.1.2
+      obtain ⟨t3, e3⟩ := total_printList hs ifs h.1.2; obtain ⟨t4, e4⟩ := total_printComps hs gs h.2
+      obtain ⟨t5, e5⟩ := total_printOps hs ifs h.1.2; tclose
+theorem total_printDefaults (hs : SymbolsTotal) : ∀ (as : List Str) (ds : List Expr), allList totalLocal ds = true →
     ∃ ts, printDefaults as ds = some ts
   | _, [], _ => by tclose
   | [], _ :: _, _ => by tclose
   | a :: as, d :: ds, h => by
       gunfold h
-      obtain ⟨t1, e1⟩ := total_print d h.1; obtain ⟨t2, e2⟩ := total_printDefaults as ds h.2; tclose
-theorem total_printSig : ∀ (a : Args), allArgs totalLocal a = true → ∃ ts, printSig a = some ts
-  | .mk _ args vararg _ _ kwarg defaults, h => by
-      gunfold h
-      obtain ⟨t1, e1⟩ := total_printDefaults (args.drop (args.length - defaults.length)) defaults h.2; tclose
-theorem total_printArgsGeneric : ∀ (a : Args), allArgs totalLocal a = true → ∃ t, printArgsGeneric a = some t
+      obtain ⟨t1, e1⟩ := total_print hs d h.1; obtain ⟨t2, e2⟩ := total_printDefaults hs as ds h.2; tclose
+theorem total_printSig (hs : SymbolsTotal) : ∀ (a : Args), allArgs totalLocal a = true → ∃ ts, printSig a = some ts
   | .mk posonly args vararg kwonly kwDefaults kwarg defaults, h => by
       gunfold h
-      obtain ⟨t1, e1⟩ := total_printOptList kwDefaults h.1; obtain ⟨t2, e2⟩ := total_printList defaults h.2; tclose
+      obtain ⟨t1, e1⟩ := total_printDefaults hs
+        ((posonly ++ args).drop ((posonly ++ args).length - defaults.length)) defaults h.2
+      obtain ⟨t2, e2⟩ := total_printKwDefaults hs kwonly kwDefaults h.1
+      simp only [printSig, e1, e2, bind, Option.bind_some, pure]
+      exact ⟨_, rfl⟩
+theorem total_printArgsGeneric (hs : SymbolsTotal) : ∀ (a : Args), allArgs totalLocal a = true → ∃ t, printArgsGeneric a = some t
+  | .mk posonly args vararg kwonly kwDefaults kwarg defaults, h => by
+      gunfold h
+      obtain ⟨t1, e1⟩ := total_printOptList hs kwDefaults h.1; obtain ⟨t2, e2⟩ := total_printList hs defaults h.2; tclose
 end
 
 end MakoModel.PyExpr
